@@ -311,6 +311,7 @@ func c17ClientCerts(c *Ctx) {
 	}
 	c.Ev.Sample(map[string]any{"part": "mtls", "cell": "https/expired", "expected": "handshake refused, no DNS response"})
 	c17CrossListenerResumption(c, ca2, ca2Path)
+	c17MissingCA(c)
 	// ---- verify_client_cert without a configured ca: the system roots (here: "other-ca" alone) decide
 	b2, err := NewBed(c, "mtls-sysroots", BedOpts{Upstreams: []string{"pipe"}, Listeners: []string{"tls", "https", "quic", "tcp"}, VerifyClientCert: true, NoClientCA: true,
 		Env: map[string]string{"SSL_CERT_FILE": ca2Path, "SSL_CERT_DIR": emptyDir}})
@@ -423,5 +424,101 @@ func c17CrossListenerResumption(c *Ctx, caB *pki.CA, caBPath string) {
 				c.Ev.Count("mtls_ticket_of_other_listener_refused", 1)
 			}
 		}
+	}
+}
+
+// c17MissingCA: the `ca` file named in a tls section does not exist (volume not mounted, wrong
+// path). The system trust store of the proxy holds another CA. An upstream whose certificate chains
+// to that other CA, and a client with a certificate of it, must not be accepted in place of the
+// configured one: either the proxy refuses to start, or the exchange / the handshake fails.
+func c17MissingCA(c *Ctx) {
+	sysCA, _ := pki.NewCA("system-root")
+	dir := filepath.Join(c.Work, "missing-ca")
+	os.MkdirAll(dir, 0755)
+	sysPath := filepath.Join(dir, "system-roots.pem")
+	sysCA.WriteFile(sysPath)
+	emptyDir := filepath.Join(dir, "no-certs")
+	os.MkdirAll(emptyDir, 0755)
+	upLeaf, _ := sysCA.Leaf(pki.LeafOpt{Names: []string{upCertName}})
+	srvLeaf, _ := sysCA.Leaf(pki.LeafOpt{Names: []string{proxyCertName}})
+	certPath, keyPath := filepath.Join(dir, "srv.pem"), filepath.Join(dir, "srv.key")
+	os.WriteFile(certPath, srvLeaf.CertPEM, 0600)
+	os.WriteFile(keyPath, srvLeaf.KeyPEM, 0600)
+	up := fakeup.NewServer("dot")
+	defer up.Close()
+	if err := up.ListenTLS("127.0.0.1:0", &tls.Config{Certificates: []tls.Certificate{upLeaf.TLS}}); err != nil {
+		c.Inconclusive("missing-ca: fake upstream: " + err.Error())
+		return
+	}
+	_, upPort, _ := strings.Cut(up.Addr["tls"], ":")
+	for _, where := range []string{"upstream", "listener"} {
+		ports, err := proxyproc.FreePorts("127.0.0.1", 3)
+		if err != nil {
+			c.Inconclusive("missing-ca: ports: " + err.Error())
+			return
+		}
+		missing := filepath.Join(dir, "not-there", "ca.pem")
+		upCA, lCA := "", ""
+		if where == "upstream" {
+			upCA = fmt.Sprintf("    tls:\n      ca: \"%s\"\n", missing)
+		} else {
+			// the upstream half is configured properly here; the listener verifies client certificates against a ca file that is not there
+			upCA = fmt.Sprintf("    tls:\n      ca: \"%s\"\n", sysPath)
+			lCA = fmt.Sprintf("      ca: \"%s\"\n      verify_client_cert: true\n", missing)
+		}
+		y := fmt.Sprintf("upstreams:\n  - tag: dot\n    addr: \"tls://%s:%s\"\n    dial_addr: \"127.0.0.1\"\n%s", upCertName, upPort, upCA) +
+			"rules:\n  - forward: dot\n" +
+			fmt.Sprintf("servers:\n  - tag: l_udp\n    protocol: udp\n    listen: \"127.0.0.1:%d\"\n  - tag: l_tls\n    protocol: tls\n    listen: \"127.0.0.1:%d\"\n    tls:\n      cert: \"%s\"\n      key: \"%s\"\n%s", ports[0], ports[1], certPath, keyPath, lCA) +
+			fmt.Sprintf("metrics:\n  addr: \"127.0.0.1:%d\"\n", ports[2])
+		c.Ev.Eval(1)
+		cs := map[string]any{"where": where, "yaml": y}
+		p, err := proxyproc.Start(proxyproc.Opts{Bin: proxyBin(), Dir: filepath.Join(dir, "proxy-"+where), YAML: y, ReadyWait: 15 * time.Second,
+			Env: map[string]string{"SSL_CERT_FILE": sysPath, "SSL_CERT_DIR": emptyDir}})
+		if err != nil {
+			if p != nil {
+				res := p.Stop()
+				if res.Panic != "" {
+					c.Violation("missing-ca:crash:"+where, "a tls section whose ca file does not exist ended in a crash: "+res.Panic, cs)
+					continue
+				}
+			}
+			c.Ev.Distinct("missing-ca", where, "refused-to-start")
+			c.Ev.Count("missing_ca_configurations_refused_at_start", 1)
+			continue
+		}
+		// it runs: nothing may be accepted on the strength of the system roots
+		if where == "upstream" {
+			uc, e := dnsclient.DialUDP("", fmt.Sprintf("127.0.0.1:%d", ports[0]))
+			if e == nil {
+				uc.Send(mkQuery(9, "ok-missingca.dot.test.", dns.TypeA, dns.ClassINET, false))
+				dl := time.Now().Add(8 * time.Second)
+				for time.Now().Before(dl) && len(uc.Received()) == 0 {
+					time.Sleep(5 * time.Millisecond)
+				}
+				m := new(dns.Msg)
+				if rc := uc.Received(); len(rc) > 0 && m.Unpack(rc[0].Data) == nil && m.Rcode == dns.RcodeSuccess && len(m.Answer) > 0 {
+					c.Violation("certs:accepted-bad-certificate:ca-file-missing", "upstream tls.ca names a file that does not exist; the proxy started all the same and the exchange with a DoT server whose certificate chains to a CA of the system trust store (not to the configured one) succeeded", cs)
+				} else {
+					c.Ev.Distinct("missing-ca", where, "exchange-failed")
+				}
+				uc.Close()
+			}
+		} else {
+			leaf, _ := sysCA.Leaf(pki.LeafOpt{Names: []string{"client"}, Client: true})
+			cfg := &tls.Config{RootCAs: sysCA.Pool(), ServerName: proxyCertName, Certificates: []tls.Certificate{leaf.TLS}}
+			sc, e := dnsclient.DialStream("", fmt.Sprintf("127.0.0.1:%d", ports[1]), cfg)
+			served := false
+			if e == nil {
+				sc.SendFrame(mkQuery(9, "ok-missingca2.dot.test.", dns.TypeA, dns.ClassINET, false))
+				served = sc.WaitFrames(1, 4*time.Second)
+				sc.Close()
+			}
+			if served {
+				c.Violation("mtls:served-without-valid-client-cert:ca-file-missing", "listener tls.ca (with verify_client_cert) names a file that does not exist; the proxy started all the same and served a client whose certificate chains to a CA of the system trust store", cs)
+			} else {
+				c.Ev.Distinct("missing-ca", where, "client-refused")
+			}
+		}
+		p.Stop()
 	}
 }
